@@ -627,7 +627,7 @@ func (p *Prog) structFieldConst(pkgPath, name, fld string) (int64, bool) {
 		if !ok {
 			continue
 		}
-		if id, ok := kv.Key.(*ast.Ident); ok && id.Name == fld {
+		if id, ok := kv.Key.(*ast.Ident); ok && (id.Name == fld || fld == "") {
 			if tv, ok := info.Types[kv.Value]; ok && tv.Value != nil {
 				return constant.Int64Val(constant.ToInt(tv.Value))
 			}
